@@ -8,7 +8,7 @@
 namespace vmerge {
 
 template <typename Doc>
-static void run_schema(const std::vector<std::string>& t, std::string& out, bool copy = false) {
+static void run_schema(const std::vector<std::string>& t, std::string& out, bool copy = false, int prep = 0) {
   std::string ex;
   if (!unhex(t[2], ex)) {
     out = "bad-op";
@@ -20,6 +20,26 @@ static void run_schema(const std::vector<std::string>& t, std::string& out, bool
   if (d.HasParseError()) {
     out = "bad-input";
     return;
+  }
+  if (prep && d.IsObject()) {
+    // schema-prep: every object-valued member of the root is emptied through the mutation API so that it is `{}` by VALUE but keeps
+    // what an emptied container keeps (children block, capacity, lookup map): prep 1 = RemoveMember one by one, 2 = SetObject +
+    // MemberReserve(8), 3 = CreateMap then RemoveMember one by one
+    auto& a = d.GetAllocator();
+    for (auto m = d.MemberBegin(); m != d.MemberEnd(); ++m) {
+      auto& v = m->value;
+      if (!v.IsObject()) continue;
+      if (prep == 2) {
+        v.SetObject();
+        v.MemberReserve(8, a);
+        continue;
+      }
+      if (prep == 3) v.CreateMap(a);
+      while (v.Size() > 0) {
+        std::string k(v.MemberBegin()->name.GetStringView().data(), v.MemberBegin()->name.GetStringView().size());
+        v.RemoveMember(sonic_json::StringView(k.data(), k.size()));
+      }
+    }
   }
   for (size_t i = 3; i < t.size(); i++) {
     std::string text;
@@ -52,15 +72,20 @@ static void run_schema(const std::vector<std::string>& t, std::string& out, bool
 }
 
 static void cmd(const std::vector<std::string>& t, std::string& out) {
-  if ((t[0] == "schema" || t[0] == "schema-copy") && t.size() >= 4) {
+  if ((t[0] == "schema" || t[0] == "schema-copy" || t[0].compare(0, 11, "schema-prep") == 0) && t.size() >= 4) {
     bool copy = t[0] == "schema-copy";
+    int prep = t[0] == "schema-prep1" ? 1 : t[0] == "schema-prep2" ? 2 : t[0] == "schema-prep3" ? 3 : 0;
+    if (t[0].compare(0, 11, "schema-prep") == 0 && !prep) {
+      out = "bad-op";
+      return;
+    }
     if (t[1] == "pool") {
-      run_schema<vparse::PoolDoc>(t, out, copy);
+      run_schema<vparse::PoolDoc>(t, out, copy, prep);
     } else if (t[1] == "simple") {
-      run_schema<vparse::SimpleDoc>(t, out, copy);
+      run_schema<vparse::SimpleDoc>(t, out, copy, prep);
     } else if (t[1] == "track") {
       vh::ledger().reset();
-      run_schema<vparse::TrackDoc>(t, out, copy);
+      run_schema<vparse::TrackDoc>(t, out, copy, prep);
       if (out != "bad-op" && out != "bad-input") out += " ledger=" + vh::ledger().report(true);
     } else {
       out = "bad-op";
